@@ -5,7 +5,7 @@ go 1.25.0
 require github.com/criyle/go-sandbox v0.0.0
 
 require (
-	github.com/elastic/go-seccomp-bpf v1.6.0 // indirect
+	github.com/elastic/go-seccomp-bpf v1.6.0
 	golang.org/x/net v0.53.0 // indirect
 	golang.org/x/sys v0.43.0
 )
